@@ -4,7 +4,7 @@ pub open spec fn spec_builtin_pools<C: ContentAddrStore>(s: UnsealedState<C>) ->
 }
 /// invariants the state carries through every transition (C20 count invariant once TIP-906 is active, C16 built-in pools)
 pub open spec fn state_inv<C: ContentAddrStore>(s: UnsealedState<C>) -> bool {
-    s.coins.wf() && (spec_tip906(s) ==> counts_ok(s.coins@)) && (!spec_tip906(s) ==> s.coins@.counts == IMap::<Address, nat>::empty()) && origin_ok(s.coins@.coins)
+    s.coins.wf() && (spec_tip906(s) ==> counts_ok(s.coins@)) && (!spec_tip906(s) ==> s.coins@.counts == IMap::<Address, nat>::empty()) && origin_ok(s.coins@.coins) && txs_keyed(s.transactions@)
 }
 /// frame of the two pool-side phases of sealing: they touch coins, pools and the fee pool only
 pub open spec fn pool_phase_frame<C: ContentAddrStore>(a: UnsealedState<C>, b: UnsealedState<C>) -> bool {
